@@ -21,7 +21,7 @@ RULE = (
 )
 TIERS = {"quick": {"shards": 8, "n": 2500, "budget_s": 200}, "thorough": {"shards": 16, "n": 40000, "budget_s": 2700}}
 FLOOR = {"quick": 300, "thorough": 20000}
-REQUIRED_LABELS = {"quick": ["style:rest", "style:google", "style:numpydoc", "footer", "indent=8", "indent=0", "header-mentions-section-keyword"], "thorough": []}
+REQUIRED_LABELS = {"quick": ["style:rest", "style:google", "style:numpydoc", "footer", "indent=8", "indent=0", "header-mentions-section-keyword", "returns-only-section"], "thorough": []}
 ASSUMPTIONS = ["the splitter's `current` argument is never indented in real use (its only caller passes the freshly emitted section)"]
 TOKENS = (":param", ":type", ":return", ":rtype", "Args:", "Returns:", "Parameters\n", "Returns\n")
 
@@ -34,7 +34,7 @@ def init_worker(ctx):
 
 
 def strategy(ctx):
-    return gen_doc.docstr(mentions=True)
+    return gen_doc.docstr(mentions=True, returns_only=True)
 
 
 def nows(s):
@@ -44,6 +44,12 @@ def nows(s):
 def p48(d):
     """the section's last line is the last line of the text and has no trailing newline (decided on the input)"""
     return (not d["text"].endswith("\n")) and not d["footer"] and is_open("P48")
+
+
+def p78(d):
+    """header prose mentioning `Returns` / `Parameters` in a docstring whose section is the return entry alone: the
+    mentioned word is taken for the section start (the source notes this false positive)"""
+    return bool(d.get("mention")) and not d["params"] and is_open("P78")
 
 
 def check_split(r, d):
@@ -196,7 +202,9 @@ def check_convert(r, d):
                 p42 = "P42"  # empty header at indent > 0: a blank line is inserted after `Args:` / `Parameters`
             else:
                 p42 = None
-            reparse_known = p42 or (src_known if src_known in ("P48", "P50", "P25") else None) or ("P25" if (target == "numpydoc" and (how == "function" or d["indent"] > 0 or (how == "plain" and ind)) and is_open("P25")) else ("P51" if (src_style == "numpydoc" and is_open("P51")) else None))
+            # P22: a return entry WITHOUT parameters emitted as google / numpydoc glues the section head to the type line
+            p22 = "P22" if (target != "rest" and not d["params"] and d["rtyp"] and is_open("P22")) else None
+            reparse_known = p22 or p42 or (src_known if src_known in ("P48", "P50", "P25") else None) or ("P25" if (target == "numpydoc" and (how == "function" or d["indent"] > 0 or (how == "plain" and ind)) and is_open("P25")) else ("P51" if (src_style == "numpydoc" and is_open("P51")) else None))
             out_lines = [l.strip() for l in out.splitlines()]
             pos = 0
             for hl in d["header_lines"]:
@@ -232,15 +240,20 @@ def check_convert(r, d):
 def oracle(d):
     r = Result()
     which = d.get("only")
-    if which in (None, "split"):
-        check_split(r, d)
-    if which in (None, "convert"):
-        check_convert(r, d)
+    if p78(d):
+        r.covered("P78")  # the whole case: the misplaced section start corrupts split and conversion alike
+    else:
+        if which in (None, "split"):
+            check_split(r, d)
+        if which in (None, "convert"):
+            check_convert(r, d)
     r.label("style:" + d["style"], "indent=%d" % d["indent"], "header-lines=%d" % min(len(d["header_lines"]), 4))
     if d["footer"]:
         r.label("footer")
     if d["lead_nl"]:
         r.label("leading-newline")
+    if not d["params"]:
+        r.label("returns-only-section")
     if d.get("mention"):
         r.label("header-mentions-section-keyword")
     r.nontrivial = len(d["header_lines"]) >= 2 and (d["footer"] or d["indent"] > 0)
